@@ -8,7 +8,8 @@
 #include "verif.h"
 #include <sys/stat.h>
 #define IN_FIELDS(S,A) S(int64_t, t_bin) S(int64_t, t_src) S(int, src_exists) S(int, has_inc) S(int64_t, t_inc) S(int, inc_exists) \
-  S(int, magic_ok) S(uint32_t, drv) S(uint64_t, cfg) S(int, name_ok) S(int, open_ok) S(int, fstat_ok) S(int, fdopen_ok)
+  S(int, magic_ok) S(uint32_t, drv) S(uint64_t, cfg) S(int, name_ok) S(int, open_ok) S(int, fstat_ok) S(int, fdopen_ok) \
+  S(int64_t, t_isrc) S(int, isrc_exists) S(int64_t, t_ibin) S(int, ibin_exists)
 #include "verif_in.h"
 void verif_on_error (void) { }
 static int reads, accepted; static FILE fake;
@@ -17,8 +18,52 @@ int fstat (int fd, struct stat *st) { (void) fd; if (!IN.fstat_ok) return -1; st
 FILE *fdopen (int fd, const char *m) { (void) fd; (void) m; return IN.fdopen_ok ? &fake : 0; }
 int close (int fd) { (void) fd; return 0; }
 int fclose (FILE *f) { (void) f; return 0; }
+#ifndef HAS_INH
+#define HAS_INH 0
+#endif
+static void gate_oracles (void)
+{
+  VERIF_ASSERT ("C17.gate.binary_not_older_than_source", IN.src_exists && IN.t_src <= IN.t_bin);
+  VERIF_ASSERT ("C17.gate.binary_not_older_than_include", !IN.has_inc || (IN.inc_exists && IN.t_inc <= IN.t_bin));
+  VERIF_ASSERT ("C17.gate.same_driver_bytecode_format", IN.drv == driver_id && IN.magic_ok);
+  VERIF_ASSERT ("C17.gate.same_configuration_simul_efun", IN.cfg == config_id);
+  VERIF_ASSERT ("C17.gate.stored_name_matches", IN.name_ok);
+}
+#if HAS_INH
+/* the program image block is one typed object (a byte block makes every field read an unfolded byte extract) */
+struct progimg { program_t p; inherit_t inh[1]; };
+char *xalloc (size_t n)
+{
+  char *q;
+  if (n == sizeof (struct progimg)) { struct progimg *g = malloc (sizeof (struct progimg)); __CPROVER_assume (g != 0); return (char *) g; }
+  q = malloc (n); __CPROVER_assume (q != 0); return q;
+}
+/* the shared-string table is not the subject: the program name is kept as given */
+char *make_shared_string (const char *s0) { return (char *) s0; }
+void free_string (char *s0) { (void) s0; }
+/* the loader resolves the inherited program only after its staleness checks: reaching this = binary accepted so far */
+object_t *find_object_by_name (const char *nm)
+{
+  (void) nm;
+  gate_oracles ();
+  VERIF_ASSERT ("C17.gate.binary_not_older_than_inherited_source", IN.isrc_exists && IN.t_isrc <= IN.t_bin);
+  VERIF_ASSERT ("C17.gate.binary_not_older_than_inherited_binary", !IN.ibin_exists || IN.t_ibin <= IN.t_bin);
+  VERIF_WITNESS ("binary_accepted");
+  if (IN.ibin_exists) VERIF_WITNESS ("inherited_binary_present");
+  VERIF_END_PATH ();
+  return 0;
+}
+static int name_is (const char *a, const char *b) { int i; for (i = 0; i < 8; i++) { if (a[i] != b[i]) return 0; if (!a[i]) return 1; } return 0; }
+#endif
 int stat (const char *nm, struct stat *st)
 {
+#if HAS_INH
+  /* files of the inherited program "p.c": its source, and its saved binary at the mudlib-relative path "b/p.b" (the
+     configured SaveBinaryDir is "/b"); any other spelling of that path does not exist */
+  if (name_is (nm, "p.c")) { if (!IN.isrc_exists) return -1; st->st_mtime = (time_t) IN.t_isrc; return 0; }
+  if (name_is (nm, "b/p.b")) { if (!IN.ibin_exists) return -1; st->st_mtime = (time_t) IN.t_ibin; return 0; }
+  if (nm[0] == '/' || nm[0] == 'b') return -1;
+#endif
   if (nm[0] == 'i') { if (!IN.inc_exists) return -1; st->st_mtime = (time_t) IN.t_inc; return 0; }   /* the include file "i.h" */
   if (!IN.src_exists) return -1;                                                                    /* the source "o.c" */
   st->st_mtime = (time_t) IN.t_src; return 0;
@@ -36,24 +81,42 @@ size_t fread (void *buf, size_t sz, size_t n, FILE *f)
     case 4: if (IN.has_inc) { b[0] = 'i'; b[1] = '.'; b[2] = 'h'; b[3] = 0; } return sz * n ? n : 0;
     case 5: *(uint16_t *) buf = 3; return 1;                                  /* stored program name length */
     case 6: b[0] = IN.name_ok ? 'o' : 'p'; b[1] = '.'; b[2] = 'c'; return n;
+#if HAS_INH
+    /* program image: a program_t with one inherit entry placed right behind it (offsets as the saver writes them) */
+    case 7: *(uint32_t *) buf = (uint32_t) sizeof (struct progimg); return 1;
+    case 8:
+      {
+        struct progimg *g = (struct progimg *) buf; static const struct progimg zero;
+        *g = zero;
+        g->p.num_inherited = 1; g->p.inherit = (inherit_t *) (intptr_t) offsetof (struct progimg, inh);
+        return 1;
+      }
+    case 9: *(uint16_t *) buf = 3; return 1;                                  /* inherited program name "p.c" */
+    case 10: b[0] = 'p'; b[1] = '.'; b[2] = 'c'; return n;
+    default:
+      VERIF_UNREACHABLE ("read beyond the inherit list");
+      return 0;
+#else
     default:
       /* the loader starts reading the program image: the binary has been accepted as current */
       accepted = 1;
-      VERIF_ASSERT ("C17.gate.binary_not_older_than_source", IN.src_exists && IN.t_src <= IN.t_bin);
-      VERIF_ASSERT ("C17.gate.binary_not_older_than_include", !IN.has_inc || (IN.inc_exists && IN.t_inc <= IN.t_bin));
-      VERIF_ASSERT ("C17.gate.same_driver_bytecode_format", IN.drv == driver_id && IN.magic_ok);
-      VERIF_ASSERT ("C17.gate.same_configuration_simul_efun", IN.cfg == config_id);
-      VERIF_ASSERT ("C17.gate.stored_name_matches", IN.name_ok);
+      gate_oracles ();
       VERIF_WITNESS ("binary_accepted");
       VERIF_END_PATH ();
       return 0;
+#endif
     }
 }
 void harness (void)
 {
-  program_t *p; static char dir[] = "b";
+  program_t *p;
+#if HAS_INH
+  static char dir[] = "/b";     /* a SaveBinaryDir written with a leading slash (the loader strips it for mudlib-relative access) */
+#else
+  static char dir[] = "b";
+#endif
   verif_in_init ();
-  __CPROVER_assume (IN.t_bin >= 0 && IN.t_src >= 0 && IN.t_inc >= 0 && IN.has_inc == HAS_INC);
+  __CPROVER_assume (IN.t_bin >= 0 && IN.t_src >= 0 && IN.t_inc >= 0 && IN.has_inc == HAS_INC && IN.t_isrc >= 0 && IN.t_ibin >= 0);
   IN.has_inc = HAS_INC;
   CONFIG_STR (__SAVE_BINARIES_DIR__) = dir;
   config_id = 77;
